@@ -37,7 +37,11 @@ type c19Case struct {
 }
 
 var c19Mutating = []string{"AddFact", "RemFact", "AddRule", "RemRule", "EnableRule", "SetParents", "Clear", "EventAdd", "EventRem", "EventAddRule", "JSAddFact"}
-var c19Revealing = []string{"GetFact", "GetRule", "SearchFacts", "SearchRules", "ListRules", "Query", "StateSize", "GetParents", "EventSearch", "JSSearch", "EventPlain"}
+var c19Revealing = []string{"GetFact", "GetRule", "SearchFacts", "SearchRules", "ListRules", "Query", "StateSize", "GetParents", "EventSearch", "JSSearch", "EventPlain",
+	"SearchInherited", "ListRulesInherited", "SearchRulesInherited"}
+
+// c19ParentKey is the read key of the (always read-protected) parent of P.
+const c19ParentKey = "r1"
 
 func genC19(t *rapid.T) c19Case {
 	var c c19Case
@@ -193,6 +197,37 @@ func c19Do(loc *core.Location, ctx *core.Context, x c19Op) (res string, err erro
 		if err == nil {
 			res = fmt.Sprint(len(qr.Bss))
 		}
+	case "SearchInherited":
+		var srs *core.SearchResults
+		srs, err = loc.SearchFacts(ctx, core.Map{"v": "?v"}, true)
+		if err == nil {
+			var rows []string
+			for _, sr := range srs.Found {
+				rows = append(rows, sr.Id+"="+refmatch.Key(refmatch.Bindings(sr.Bindingss[0])))
+			}
+			sort.Strings(rows)
+			res = strings.Join(rows, ";")
+		}
+	case "ListRulesInherited":
+		var ids []string
+		ids, err = loc.ListRules(ctx, true)
+		sort.Strings(ids)
+		res = strings.Join(ids, ",")
+		if err == nil && res == "" {
+			// ListRules swallows search errors and returns nothing
+			err = fmt.Errorf("empty")
+		}
+	case "SearchRulesInherited":
+		var rs map[string]*core.Rule
+		rs, err = loc.SearchRules(ctx, core.Map{"plain": "x"}, true)
+		if err == nil {
+			var ids []string
+			for id := range rs {
+				ids = append(ids, id)
+			}
+			sort.Strings(ids)
+			res = strings.Join(ids, ",")
+		}
 	case "StateSize":
 		var n int
 		n, err = loc.StateSize(ctx)
@@ -257,7 +292,31 @@ func runC19(c c19Case) *vlib.Outcome {
 		o.Fail("SETUP", "%v", err)
 		return o
 	}
+	// P has a parent PP whose facts and rules need the read key r1; U has the
+	// same parent content unprotected
+	for _, pn := range []string{"PP", "UP"} {
+		pl, err := w.open(pn)
+		if err == nil {
+			_, err = pl.AddFact(newCtx(), "pf1", core.Map{"v": "parentsecret"})
+		}
+		if err == nil {
+			_, err = pl.AddRule(newCtx(), "prule", core.Map(mkRule(M{"plain": "x"}, "parent-rule")))
+		}
+		if err == nil && pn == "PP" {
+			err = pl.SetProp(newCtx(), "", "readKey", c19ParentKey)
+		}
+		if err != nil {
+			o.Fail("SETUP", "parent %s: %v", pn, err)
+			return o
+		}
+	}
+	setParents := func() {
+		P.SetParents(c19Ctx(P, "right", c19Prot{}), []string{"PP"})
+		U.SetParents(newCtx(), []string{"UP"})
+	}
+	setParents()
 	var prot c19Prot
+	parentsIntact := true // P's parent list is [PP] (SetParents / Clear change it)
 	refusedWithData, actionWriteProtected := false, false
 	covered := map[string]bool{}
 	for i, x := range c.Ops {
@@ -316,7 +375,14 @@ func runC19(c c19Case) *vlib.Outcome {
 		if viaJS && prot.disabled {
 			needsRead = true // every operation reports a disabled location
 		}
+		// event dispatch, condition queries and Env.Search include the parents
+		inherited := strings.HasSuffix(x.K, "Inherited") || viaEvent || x.K == "Query" || x.K == "JSSearch"
+		parentReadable := ctx.ReadKey == c19ParentKey
 		authorised := (!needsRead || mayRead) && (!needsWrite || mayWrite)
+		if inherited && !parentReadable && parentsIntact {
+			// the parent's facts and rules need the parent's read key
+			authorised = false
+		}
 		if prot.disabled {
 			authorised = false
 		}
@@ -348,11 +414,16 @@ func runC19(c c19Case) *vlib.Outcome {
 		} else {
 			// same call on the unprotected twin
 			ures, uerr := c19Do(U, c19Ctx(U, "none", c19Prot{}), x)
-			if x.K == "StateSize" {
-				// P also stores its protection properties
+			if x.K == "StateSize" || x.K == "GetParents" {
+				// P also stores its protection properties, and the
+				// twins' parents have different names
 				res, ures = "", ""
 			}
+			if x.K == "SetParents" && err == nil {
+				parentsIntact = false
+			}
 			if x.K == "Clear" && err == nil {
+				parentsIntact = false
 				// the keys and the enabled flag are facts of the
 				// location: a Clear removes them too
 				prot.writeKey, prot.readKey, prot.disabled = "", "", false
@@ -360,6 +431,8 @@ func runC19(c c19Case) *vlib.Outcome {
 				ro := prot.readOnly
 				P.SetReadOnly(newCtx(), false)
 				e1, e2 := setup(P), setup(U)
+				setParents()
+				parentsIntact = true
 				P.SetReadOnly(newCtx(), ro)
 				if e1 != nil || e2 != nil {
 					o.Fail("SETUP", "%s: re-installing the rules after Clear failed: %v %v", when, e1, e2)
